@@ -962,6 +962,210 @@ def shrink(case, sig, rexe, vexe, budget_s=60, log=None):
     return cur["src"], rounds
 
 
+# ---------------------------------------------------------------------------------------------------------
+# direct test of the template's primitives: the REAL `impl StateStorage` text of the template, compiled stand-alone with a
+# small driver, against the extracted Gallina transcription (RustRt/Model.v ss_run) and the extracted cursor machine
+# (m_run VmD / WasmD), on structured random primitive-op sequences (cells visited the way generated code visits them)
+# ---------------------------------------------------------------------------------------------------------
+PRIMS_MAIN = r"""
+fn main() {
+    use std::io::BufRead;
+    std::panic::set_hook(Box::new(|_| {}));
+    let stdin = std::io::stdin();
+    for line in stdin.lock().lines() {
+        let line = line.unwrap();
+        let r = std::panic::catch_unwind(|| {
+            let mut it = line.split(';');
+            let n: usize = it.next().unwrap().trim().parse().unwrap();
+            let mut s = StateStorage::new(n);
+            let mut out: Vec<String> = vec![];
+            for tok in it.next().unwrap().split_whitespace() {
+                let (k, rest) = tok.split_at(1);
+                match k {
+                    "P" => { s.push_pos(rest.parse().unwrap()); out.push("-".into()); }
+                    "Q" => { s.pop_pos(rest.parse().unwrap()); out.push("-".into()); }
+                    "G" => { let v = s.get_state(1); out.push(format!("{:016x}", v[0])); }
+                    "S" => { let v: f64 = rest.parse().unwrap(); s.set_state(&[f64_to_word(v)], 1); out.push("-".into()); }
+                    "M" => { let v: f64 = rest.parse().unwrap(); out.push(format!("{:016x}", s.mem(f64_to_word(v)))); }
+                    "D" => {
+                        let a: Vec<&str> = rest.split(',').collect();
+                        let n: usize = a[0].parse().unwrap();
+                        let x: f64 = a[1].parse().unwrap();
+                        let t: f64 = a[2].parse().unwrap();
+                        out.push(format!("{:016x}", s.delay(f64_to_word(x), f64_to_word(t), n)));
+                    }
+                    _ => panic!("op"),
+                }
+            }
+            format!("R {} | {} | {}", out.join(" "), s.pos, s.rawdata.iter().map(|w| format!("{:016x}", w)).collect::<Vec<_>>().join(" "))
+        });
+        match r { Ok(l) => println!("{}", l), Err(_) => println!("R panic") }
+    }
+}
+"""
+
+
+def _balanced_from(src, start):
+    i = src.index("{", start)
+    depth, j = 0, i
+    while j < len(src):
+        if src[j] == "{":
+            depth += 1
+        elif src[j] == "}":
+            depth -= 1
+            if depth == 0:
+                return src[start:j + 1]
+        j += 1
+    raise RuntimeError("unbalanced")
+
+
+def build_prims_driver():
+    """the template's own text of Word, f64_to_word, word_to_f64, struct StateStorage, impl StateStorage + a driver main"""
+    txt = open(TEMPLATE).read()
+    parts = []
+    for pat in (r"pub type Word = u64;", r"fn f64_to_word\(value: f64\) -> Word \{[^\n]*\}", r"fn word_to_f64\(value: Word\) -> f64 \{[^\n]*\}"):
+        m = re.search(pat, txt)
+        if not m:
+            return None, "template: `%s` not found" % pat
+        parts.append(m.group(0))
+    m = re.search(r"#\[derive\([^\]]*\)\]\s*struct StateStorage\s*\{", txt)
+    if not m:
+        return None, "template: struct StateStorage not found"
+    parts.append(_balanced_from(txt, m.start()))
+    m = re.search(r"impl StateStorage\s*\{", txt)
+    if not m:
+        return None, "template: impl StateStorage not found"
+    parts.append(_balanced_from(txt, m.start()))
+    os.makedirs(SCRATCH, exist_ok=True)
+    srcp = os.path.join(SCRATCH, "template_prims.rs")
+    exe = os.path.join(SCRATCH, "template_prims.bin")
+    open(srcp, "w").write("\n".join(parts) + PRIMS_MAIN)
+    rc, out, _ = sh(["rustc", "--edition=2024", "-Awarnings", "-Cdebuginfo=0", srcp, "-o", exe], timeout=300)
+    if rc != 0:
+        return None, "the template's StateStorage does not compile stand-alone: " + out[-600:]
+    return exe, ""
+
+
+def prim_sequences(rng, count):
+    """(init_len, ops text, layout) ; layout = list of (kind, n, offset)"""
+    seqs = []
+    for i in range(count):
+        r = rng.fork(("prims", i))
+        cells, off = [], 0
+        for _ in range(r.range(1, 5)):
+            k = r.choice("FMDD")
+            n = r.range(1, 4) if k == "D" else 1
+            if k == "D" and r.chance(1, 12):
+                n = 0
+            cells.append((k, n, off))
+            off += n + 2 if k == "D" else 1
+        total = off
+        init = r.choice([total, total, total, 0, max(0, total - 1), total + 2])
+        ops = []
+        for _ in range(r.range(2, 6)):
+            cur = 0
+            order = list(range(len(cells)))
+            if r.chance(1, 4):
+                order = [j for j in order if r.chance(2, 3)]
+            for j in order:
+                k, n, o = cells[j]
+                if o > cur:
+                    ops.append("P%d" % (o - cur))
+                elif o < cur:
+                    ops.append("Q%d" % (cur - o))
+                cur = o
+                if k == "F":
+                    ops += ["G", "S%d" % r.range(-4, 9)]
+                elif k == "M":
+                    ops.append("M%d" % r.range(-4, 9))
+                else:
+                    ops.append("D%d,%d,%d" % (n, r.range(-4, 9), r.range(-2, n + 2)))
+            if cur > 0:
+                ops.append("Q%d" % (cur + (1 if r.chance(1, 10) else 0)))     # now and then one too many (saturation / VM undefined)
+        seqs.append((init, " ".join(ops), cells))
+    return seqs
+
+
+def template_prims_test(ck, n_seq, extra=()):
+    """returns (n_run, list of failures (what, replay_obj)), None when a side cannot be built"""
+    rc, out, _ = coq_make(["theories/Extract/RustRtExtract.vo"])
+    if rc != 0:
+        ck.broken.append("extraction RustRtExtract: " + first_coq_error(out)[:300])
+        return None
+    rc, out, mexe = ocaml_build("rustrt_drv", ["rustrt_model"], os.path.join(VERIF, "ocaml", "rustrt_drv.ml"))
+    if rc != 0:
+        ck.broken.append("ocaml rustrt_drv: " + out[-300:])
+        return None
+    texe, err = build_prims_driver()
+    if texe is None:
+        ck.broken.append(err)
+        return 0, [("the template's state primitives cannot be compiled stand-alone: " + err[:200], {"detail": err})]
+    seqs = [(e["init_len"], e["ops"], [tuple(c) for c in e["cells"]]) for e in extra] + prim_sequences(ck.rng, n_seq)
+    text = "".join("%d ; %s\n" % (init, ops) for init, ops, _ in seqs)
+    rc1, mout, _ = run_lines(mexe, text, timeout=600)
+    rc2, tout, _ = run_lines(texe, text, timeout=600)
+    mout = [l for l in mout if l.startswith("T ")]
+    tout = [l for l in tout if l.startswith("R ")]
+    fails = []
+    if len(mout) != len(seqs) or len(tout) != len(seqs):
+        return 0, [("primitive drivers did not answer every sequence (model %d, template %d of %d)" % (len(mout), len(tout), len(seqs)), {})]
+
+    def decode_word(h):
+        f = bits_to_float(h)
+        return int(f) if f == f and abs(f) < 2 ** 62 and f == int(f) else ("bits:" + h)
+
+    agree_v = agree_w = 0
+    for (init, ops, cells), ml, tl in zip(seqs, mout, tout):
+        sides = {}
+        for part in ml.split(" ; "):
+            tag, rest = part[0], part[2:]
+            if rest.strip() == "none":
+                sides[tag] = None
+            else:
+                rs, pos, ws = rest.split("|")
+                sides[tag] = ([int(x) for x in rs.split()], int(pos), [int(x) for x in ws.split()])
+        headers = set()
+        for k, n, o in cells:
+            if k == "D":
+                headers |= {o, o + 1}
+        if tl.strip() == "R panic":
+            real = None
+        else:
+            rs, pos, ws = tl[2:].split("|")
+            rr = [0 if x == "-" else decode_word(x) for x in rs.split()]
+            ww = [int(h, 16) if i in headers else decode_word(h) for i, h in enumerate(ws.split())]
+            real = (rr, int(pos), ww)
+        T = sides.get("T")
+        rp = {"init_len": init, "ops": ops, "cells": cells, "template_model": T, "real_template": real,
+              "machine_vm": sides.get("V"), "machine_grow": sides.get("W"),
+              "how": "echo '<init_len> ; <ops>' | .cache/rustgen/template_prims.bin   and   | .cache/ocaml/rustrt_drv/rustrt_drv"}
+        vm = sides.get("V")
+        if real is None:
+            # the real code panicked (index out of range): the transcription reads 0 / writes nothing there; only legal when the
+            # VM discipline is undefined too
+            if vm is not None:
+                fails.append(("the template's StateStorage panics on a primitive sequence the VM discipline defines", rp))
+            continue
+        if T is not None and (list(T[0]), T[1], list(T[2])) != (real[0], real[1], real[2]):
+            fails.append(("the template's real StateStorage and its Gallina transcription (RustRt/Model.v) differ", rp))
+            continue
+        if vm is not None:
+            if (vm[0], vm[1], vm[2]) != (real[0], real[1], real[2]):
+                fails.append(("the template's StateStorage differs from the cursor machine's primitives (VM discipline) "
+                              "- C18_template_prims_agree evaluated on the real code", rp))
+            else:
+                agree_v += 1
+        w = sides.get("W")
+        if w is not None and not any(k == "D" and n == 0 for k, n, o in cells):
+            if (w[0], w[1], w[2]) != (real[0], real[1], real[2]):
+                fails.append(("the template's StateStorage differs from the cursor machine's primitives (grow-on-demand discipline)", rp))
+            else:
+                agree_w += 1
+    ck.coverage["template_prim_sequences"] = {"run": len(seqs), "equal_to_machine_vm_where_defined": agree_v,
+                                              "equal_to_machine_grow": agree_w}
+    return len(seqs), fails
+
+
 def run(ck):
     ck.level = "other"
     have_props = os.path.exists(os.path.join(COQ, "theories", "Props", "C18.v"))
@@ -978,14 +1182,24 @@ def run(ck):
     shutil.rmtree(SCRATCH, ignore_errors=True)
     os.makedirs(SCRATCH, exist_ok=True)
     quick = ck.tier == "quick"
-    n_gen, n_samples = (600, 16) if quick else (8000, 48)
-    n_x = 500 if quick else 8000
+    prim_fails = []
+    rp0 = json.load(open(ck.replay))["replay"] if ck.replay else {}
+    if have_props:
+        pt = template_prims_test(ck, 400 if quick else 6000, extra=[rp0] if "ops" in rp0 else [])
+        if pt is None:
+            ck.violation("the primitive-level test (extracted RustRt model / machine) cannot be built", {"broken": ck.broken}, no_input=True)
+        else:
+            prim_fails = pt[1]
+    for what, rp in prim_fails[:3]:
+        ck.violation(what, rp)
+    n_gen, n_samples = (450, 16) if quick else (8000, 48)
+    n_x = 450 if quick else 8000
     findings = {f["id"]: f for f in known_findings("C18")}
     methods = scaffold_methods()
 
     cases = []
-    if ck.replay:
-        rp = json.load(open(ck.replay))["replay"]
+    if ck.replay and "source" in rp0:
+        rp = rp0
         c = mk_case("replay", "replay", rp["source"], rp["n_samples"], inputs=rp.get("inputs"), plugins=rp.get("plugins", "none"),
                     sched=rp.get("plugins") == "sched", path=rp.get("path"))
         if rp.get("input_bits"):
@@ -1000,8 +1214,11 @@ def run(ck):
     if mexe:
         for i, m in zip(ast_idx, run_model(mexe, [(cases[i]["prog"], cases[i]["rows"]) for i in ast_idx])):
             mres[i] = m
+    t1 = time.time()
     vres = run_impl(vexe, vm_requests(cases))
+    t2 = time.time()
     rres = run_impl(rexe, rust_requests(cases), shards=NPROC)
+    ck.coverage["phase_seconds"] = {"setup_and_model": round(t1 - ck.t0, 1), "vm": round(t2 - t1, 1), "emit_rustc_run": round(time.time() - t2, 1)}
 
     stats, feats, viol, harness_err = {}, {}, [], []
     def bump(k, n=1): stats[k] = stats.get(k, 0) + n
@@ -1147,7 +1364,7 @@ def run(ck):
     if harness_err and not viol:
         ck.broken.append("rustc could not be launched / scratch dir not writable: " + harness_err[0][0])
         ck.violation("the rustc pipeline of the harness is broken", {"detail": harness_err[0][0], "count": len(harness_err)}, no_input=True)
-    if not proved and not viol:
+    if not proved and not viol and not prim_fails:
         ck.violation("a proof obligation of Props/C18.v (template primitives = machine primitives) no longer checks",
                      {"broken": ck.broken}, no_input=True)
     return finish(ck)
@@ -1155,17 +1372,31 @@ def run(ck):
 
 def finish(ck):
     ck.finish(
-        explanation=("Partial. PROVED in Coq: the state primitives of the generated program's runtime scaffold (StateStorage push_pos/pop_pos/"
-                     "get_state/set_state/mem/delay of mimium_placeholder.rs.template, transcribed to RustRt/Model.v and pinned to the template "
-                     "text by translators/rustrt_template.py) agree with the cursor machine's primitives of Lmmm/Machine.v wherever the VM "
-                     "discipline is defined. COMPARED (not proved): everything else - rustgen.rs is not modelled; generated core programs and the "
-                     "shipped fixtures are emitted, compiled with rustc and run, and every output sample is compared bit for bit with the real VM "
-                     "and with the extracted reference semantics; programs in the class of the known VM defect F3 (two delay sizes in one function) are compared with "
-                     "the reference semantics / WASM instead. Plugin-dependent programs must be refused (at emit time or by a run-time error naming "
-                     "the external)."),
+        explanation=("Partial (level other). PROVED in Coq (Props/C18.v, closed under the global context): the state primitives of the runtime "
+                     "scaffold every generated program embeds (mimium_placeholder.rs.template `impl StateStorage`: push_pos pop_pos get_state "
+                     "set_state mem delay; transcribed to RustRt/Model.v, pinned to the template's current text and layout numbers by "
+                     "translators/rustrt_template.py) return the same word and leave the same words and cursor as the primitives of the cursor "
+                     "machine Lmmm/Machine.v, for single operations and for whole operation sequences, wherever the VM discipline is defined "
+                     "(C18_template_prim_agrees_vm, C18_template_prims_agree), and coincide with the machine's grow-on-demand discipline "
+                     "everywhere (C18_template_prim_agrees_grow, ring buffers of length 0 excepted). The transcription itself is validated by "
+                     "compiling the template's real StateStorage stand-alone and driving it, the extracted transcription and the extracted machine "
+                     "with the same random primitive sequences. COMPARED, NOT PROVED: everything else - rustgen.rs (MIR -> Rust lowering, ABI, "
+                     "closures, aggregates, arrays) is not modelled. The shipped fixtures of rust_codegen_test.rs, a pool of function names, "
+                     "generated first-order programs (Lmmm generator) and generated programs with closures / higher-order functions / tuples / "
+                     "records / sum types / match / arrays / recursion / non-integer arithmetic (second generator) are emitted with "
+                     "Context::emit_rust, compiled with rustc and run; clause (a) every accepted program compiles, (b) every output sample equals "
+                     "the real VM's bit for bit (first-order programs also against the extracted reference semantics), (c) plugin-dependent "
+                     "programs are refused at emit time or by a run-time error naming the external. Failures inside the listed classes "
+                     "(KNOWN_FINDINGS C18: F3 F20 F21 F22 F23 F24 F26 F27) are reported as known findings only when they show the known "
+                     "symptom (for F23/F24: the failure disappears under the semantics-preserving rewrite of exactly that construct; for F3/F26: "
+                     "generated Rust equals the reference semantics / WASM); anything else is a violation and is shrunk."),
         trusted_base=["rustc 2024 edition (the repo's own recipe: rustc --edition=2024 <generated source + mimium_test_main.rs.template>)",
                       "harness/lang rustgen_run (host: current_time = sample index, sample_rate = 48000, every external refused) and lmmm_run",
-                      "lib/lmmm.py generator and pretty-printer", "Coq 8.16.1 kernel, extraction, ocaml/lmmm_drv.ml (reference semantics)"],
-        rule=("fixtures of rust_codegen_test.rs first; then function-name pool (Rust keywords, scaffold method names, controls); plugin probes; "
-              "type-directed Lmmm generator (1 case in 8 allows stateful constructs in `if` arms); "
+                      "lib/lmmm.py generator and pretty-printer; the second generator and the text-level rewrites in checks/C18.py",
+                      "Coq 8.16.1 kernel, extraction (ExtrOcamlBasic/ExtrOcamlString), ocaml/lmmm_drv.ml (reference semantics), ocaml/rustrt_drv.ml",
+                      "translators/rustrt_template.py (normalised-text pin of the template's primitives); abstraction of state words as integers "
+                      "(data words = integer-valued f64, ring indices raw) shared with Lmmm/Machine.v; usize saturation at 2^64-1 excluded by `fits`"],
+        rule=("fixtures of rust_codegen_test.rs first; corpus/C18 witnesses; function-name pool (Rust keywords, scaffold method names, controls); "
+              "plugin probes; type-directed Lmmm generator (1 case in 8 allows stateful constructs in `if` arms); second typed generator "
+              "(1 case in 16 uses the math built-ins of class F21); structured primitive-op sequences for the template test; "
               "distinct_nontrivial = distinct sources whose generated Rust ran and equalled the VM at every sample"))
